@@ -36,6 +36,10 @@ Ev == Rec[l]
 T  == Ev.t
 V(tag, cond, extra) == IF cond THEN {} ELSE {<<tag, l, scen, extra>>}
 
+(* at most 24 recorded failures per clause and kind: the set is part of the state, its size must stay bounded *)
+KindOfV(v) == IF v[4] # <<>> THEN v[4][1] ELSE ""
+Cap(old, new) == old \cup {v \in new : Cardinality({w \in old : w[1] = v[1] /\ KindOfV(w) = KindOfV(v)}) < 24}
+
 Dom(f) == DOMAIN f
 Put(f, k, v) == [x \in Dom(f) \cup {k} |-> IF x = k THEN v ELSE f[x]]
 Del(f, ks) == [x \in Dom(f) \ ks |-> f[x]]
@@ -354,7 +358,7 @@ Iter ==
          vWake == IF due = {} \/ ~Ev.alive \/ s.down THEN {}
                   ELSE V("C12.cover", Ev.wake >= 0 /\ Ev.wake <= (CHOOSE d \in due : \A e \in due : d <= e),
                          <<"requested wake-up later than pending time-driven work", Ev.wake, CHOOSE d \in due : \A e \in due : d <= e, T>>)
-     IN /\ viol' = viol \cup SpinV \cup s.v \cup vProbe \cup vAnn \cup vBye \cup vOwed \cup vQ \cup vQuiet \cup vWake \cup vRename \cup vNoTake
+     IN /\ viol' = Cap(viol, SpinV \cup s.v \cup vProbe \cup vAnn \cup vBye \cup vOwed \cup vQ \cup vQuiet \cup vWake \cup vRename \cup vNoTake)
         /\ lost' = lost \cup conflictNames
         /\ ncseen' = ncseen \cup ncNow
         /\ compet' = [x \in Dom(compet) \cup competNow |-> IF x \in competNow THEN T ELSE compet[x]]
